@@ -204,9 +204,11 @@ class UnitsSerializer(Serializer):
             matched_regex = self.regex_for_serialized.fullmatch(data)
             if matched_regex:
                 data = matched_regex.group(1)
-            if data.startswith('nan'):
-                unit_str = data[len('nan'):].strip()
-                unit_data = math.nan * units(unit_str)
+            if re.match(r'nan(\s|$)', data):
+                # ``nan`` is the magnitude here, not the start of a unit
+                # name like ``nanometer``. Parse the rest with magnitude
+                # 1 so that units like ``/ second`` stay parsable.
+                unit_data = math.nan * units('1' + data[len('nan'):])
             else:
                 unit_data = units(data)
             if unit is not None:
